@@ -169,6 +169,14 @@ Definition lag_at (values : list val) (i : Z) (offset : Z) (ignore_nulls : bool)
     walk_back (rev (firstn (Z.to_nat (lag_idx + 1)) values)) ignore_nulls default
   else default.
 
+(* pair every member with its value; the function must have produced exactly one value per member *)
+Fixpoint zip_exact {A B} (a : list A) (b : list B) : res (list (A * B)) :=
+  match a, b with
+  | [], [] => Ok []
+  | x :: a', y :: b' => do r <- zip_exact a' b'; Ok ((x, y) :: r)
+  | _, _ => Err (EOther 8)
+  end.
+
 Section Analyze.
   Variable strict : bool.
 
@@ -244,6 +252,6 @@ Section Analyze.
     do parts <- mapM (fun idxs =>
                   let members := pick sorted idxs in
                   do vals <- analyze_partition f ac has_order members;
-                  Ok (combine (map fst members) vals)) (group_keys pkeys);
+                  zip_exact (map fst members) vals) (group_keys pkeys);
     Ok (map (fun rv => fst rv ++ [snd rv]) (concat parts)).
 End Analyze.
